@@ -131,11 +131,14 @@ func addrWant(a string) string {
 
 // the previous message object and its serialisation: building another message must not change it
 var prevMsg *fbb.Message
+
+// reused: a Message value holding the previous message of the run, into which the next one is parsed as well
+var reused *fbb.Message
 var prevMsgBytes []byte
 
 func MsgEvent(b built, desc interface{}, schedules [][]int) rec.Event {
 	ev := rec.Event{"op": "Msg", "desc": desc, "earlierBytesStable": true, "panic": false, "writeErr": false, "parseErr": false, "headersEqual": false, "bodyEqual": false,
-		"filesEqual": false, "accessorsEqual": false, "reserialiseEqual": false, "chunkIndependent": true, "tailMatches": false, "hdrOrder": false}
+		"filesEqual": false, "accessorsEqual": false, "reserialiseEqual": false, "chunkIndependent": true, "tailMatches": false, "hdrOrder": false, "reuseIndependent": true}
 	func() {
 		defer func() {
 			if p := recover(); p != nil {
@@ -226,6 +229,19 @@ func MsgEvent(b built, desc interface{}, schedules [][]int) rec.Event {
 		ev["accessorsEqual"] = acc
 		raw2, err := p.Bytes()
 		ev["reserialiseEqual"] = err == nil && bytes.Equal(raw, raw2)
+		// a Message value that held another message before (the previous one of this run) parses to the same as a fresh one
+		if reused != nil {
+			if err := reused.ReadFrom(bytes.NewReader(append([]byte(nil), raw...))); err != nil {
+				ev["reuseIndependent"], ev["errtext"] = false, "into a used Message: "+err.Error()
+			} else if rb, err := reused.Bytes(); err != nil || !bytes.Equal(rb, raw) || !reflect.DeepEqual(map[string][]string(reused.Header), map[string][]string(p.Header)) ||
+				len(reused.Files()) != len(p.Files()) {
+				ev["reuseIndependent"] = false
+			}
+		}
+		reused = new(fbb.Message)
+		if err := reused.ReadFrom(bytes.NewReader(append([]byte(nil), raw...))); err != nil {
+			reused = nil
+		}
 		// drift diagnostics against Message.tla's layout: section tail and header key order
 		i := bytes.Index(raw, []byte("\r\n\r\n"))
 		stored := raw[i+4:]
